@@ -74,12 +74,25 @@ def build(case):
 def g_formula(draw):
     C, F = gen.dims(draw)
     p = gen.gmm_params(draw, C, F, allow_zero_floor=True, kmax=gen.choice(draw, [30.0, 1e3, 1e6]))
+    rare = None
+    if C >= 2 and gen.choice(draw, [False, False, True]):
+        # "all positive weights": one component with a weight far below machine epsilon (what ML training gives a
+        # component that lost its data), placed away from the others so that samples near it are scored by it alone
+        r0 = gen.rng(draw)
+        rare = gen.integer(draw, 0, C - 1)
+        w = np.array(p["weights"], dtype=float)
+        w[rare] = 10.0 ** -r0.uniform(16.5, 300.0)
+        rest = [i for i in range(C) if i != rare]
+        w[rest] = w[rest] / w[rest].sum() * (1.0 - w[rare])
+        p["weights"] = w
+        p["means"] = np.array(p["means"], copy=True)
+        p["means"][rare] = p["means"][rare] + 100.0 * p["scales"] * r0.choice([-1.0, 1.0], F) * np.exp(r0.uniform(0, 2))
     n = gen.integer(draw, 1, 30 if gen.big() else 12)
     X, kind = gen.data_from(draw, p, n)
     how = gen.presentation(draw)
     if how == "int":
         X = gen.integral(X)
-    c = {"p": p, "X": X, "kind": kind, "order": gen.choice(draw, ["floors_first", "floors_last", "floors_after_a_likelihood"]),
+    c = {"p": p, "X": X, "kind": kind, "rare": rare, "order": gen.choice(draw, ["floors_first", "floors_last", "floors_after_a_likelihood"]),
          "how": how}
     if gen.choice(draw, [False, True]) and p["floor_kind"] not in ("default", "zero"):
         # some variances are handed over BELOW their floor: the machine must clamp them (and normalise accordingly)
@@ -111,7 +124,8 @@ def c_formula(ctx, case):
     ctx.close(var, p["variances"], "visible variances == max(given, floors)", rtol=0, atol=0)
     ctx.note(_nontrivial(p, X), "kind:" + case["kind"], "floor:" + p["floor_kind"],
              "C>=2" if p["C"] >= 2 else "C=1", "order:" + case.get("order", "floors_first"),
-             "clamped-by-floor" if "raw_variances" in case else None, "int-params" if case.get("int_params") else None)
+             "clamped-by-floor" if "raw_variances" in case else None, "int-params" if case.get("int_params") else None,
+             "weight<eps" if case.get("rare") is not None else None)
     want_lw = ref.gmm_log_weighted(X, p["weights"], p["means"], p["variances"])
     want = logsumexp(want_lw, axis=0)
     Xarg = sut.present(X, case.get("how", "plain"))
